@@ -397,7 +397,13 @@ func (b *Broker) RegisterPipeline(def Pipeline, opt ...Option) error {
 	// A pipeline that is being overwritten no longer references its nodes.
 	b.releaseNodes(g, def.PipelineID)
 	g.roots.Store(def.PipelineID, pipelineReg)
+	counted := make(map[NodeID]struct{}, len(def.NodeIDs))
 	for _, id := range def.NodeIDs {
+		// A pipeline references a node once, however often it lists it.
+		if _, ok := counted[id]; ok {
+			continue
+		}
+		counted[id] = struct{}{}
 		nodeUsage, ok := b.nodes[id]
 		// We can be optimistic about this as we would have already errored above.
 		if ok {
